@@ -45,7 +45,7 @@ func init() {
 				Min:  map[string]int64{"programs": 500}},
 			{Name: "programs", N: tier(250_000, 6_000_000), Run: c01Programs,
 				Rule: "PRNG programs as described above",
-				Min: map[string]int64{"programs": 20000, "lowres": 5000, "highres": 5000, "custom_viewbox": 5000, "custom_palette": 5000, "no_reset": 1000,
+				Min: map[string]int64{"programs": 20000, "lowres": 5000, "highres": 5000, "custom_viewbox": 5000, "custom_palette": 5000, "no_reset": 1000, "resolution_toggled_programs": 5000,
 					"op_AbsArcTo": 1000, "op_RelArcTo": 1000, "op_SetCReg": 10000, "op_SetNReg": 10000, "op_SetLOD": 1000, "op_AbsHLineTo": 1000, "op_RelVLineTo": 1000}},
 			{Name: "transcode", N: tier(120_000, 3_000_000), Run: c01Transcode,
 				Rule: "decoder-accepted streams (corpus files, mutated corpus files, hand-assembled streams with non-canonical forms) fed to an Encoder and decoded again, 4 hops, with a low-resolution and a high-resolution Encoder",
@@ -65,27 +65,55 @@ func (h hiResEnc) Reset(vb ivg.ViewBox, pal [64]color.RGBA) {
 
 // encodeProgram feeds ops to a fresh Encoder and returns a copy of its bytes.
 func encodeProgram(ops []rec.Op, hires bool) ([]byte, error) {
+	b, _, err := encodeProgramToggling(ops, hires, nil)
+	return b, err
+}
+
+// encodeProgramToggling additionally sets the public resolution flag to
+// toggles[i] right before call i. It returns, per call, whether low
+// resolution applies: the Encoder copies the flag at StartPath, so a change
+// between drawing calls must have no effect until the next path.
+func encodeProgramToggling(ops []rec.Op, hires bool, toggles map[int]bool) ([]byte, []bool, error) {
 	var e encode.Encoder
 	e.HighResolutionCoordinates = hires
+	field, latched := hires, hires
+	lowres := make([]bool, len(ops))
 	for i := range ops {
+		if v, ok := toggles[i]; ok {
+			e.HighResolutionCoordinates = v
+			field = v
+		}
+		if ops[i].K == rec.KStartPath {
+			latched = field
+		}
+		lowres[i] = !latched
 		rec.Apply(&e, &ops[i])
 		if ops[i].K == rec.KReset {
 			e.HighResolutionCoordinates = hires
+			field = hires
 		}
 	}
 	b, err := e.Bytes()
-	return append([]byte(nil), b...), err
+	return append([]byte(nil), b...), lowres, err
 }
 
 // c01Forward judges one program.
 func c01Forward(c *run.Ctx, ops []rec.Op, hires bool, family string) {
+	c01ForwardToggling(c, ops, hires, nil, family)
+}
+
+func c01ForwardToggling(c *run.Ctx, ops []rec.Op, hires bool, toggles map[int]bool, family string) {
 	var b []byte
+	var lowresAt []bool
 	var err error
 	desc := func() interface{} {
 		return map[string]interface{}{"family": family, "highres": hires, "program": rec.Strings(clip(ops, 80))}
 	}
-	if !c.Guard("encode", desc, func() { b, err = encodeProgram(ops, hires) }) {
+	if !c.Guard("encode", desc, func() { b, lowresAt, err = encodeProgramToggling(ops, hires, toggles) }) {
 		return
+	}
+	if len(toggles) > 0 {
+		c.Count("resolution_toggled_programs", 1)
 	}
 	c.Count("programs", 1)
 	if hires {
@@ -108,13 +136,21 @@ func c01Forward(c *run.Ctx, ops []rec.Op, hires bool, family string) {
 		return
 	}
 	want := ops
+	shift := 0
 	if len(ops) == 0 || ops[0].K != rec.KReset {
 		pal := ivg.DefaultPalette
 		want = append([]rec.Op{{K: rec.KReset, VB: ivg.DefaultViewBox, Pal: &pal}}, ops...)
+		shift = 1
 	}
 	res := ref.Parse(b)
-	if i, why := compareEncoded(want, out, !hires, res.ShortZTO); i >= 0 {
-		d := map[string]interface{}{"family": family, "highres": hires, "index": i, "why": why, "bytes": hx(b)}
+	lowres := func(i int) bool {
+		if j := i - shift; j >= 0 && j < len(lowresAt) {
+			return lowresAt[j]
+		}
+		return !hires
+	}
+	if i, why := compareEncodedPer(want, out, lowres, res.ShortZTO); i >= 0 {
+		d := map[string]interface{}{"family": family, "highres": hires, "index": i, "why": why, "bytes": hx(b), "resolution_toggles": fmt.Sprint(toggles)}
 		if i < len(want) {
 			d["written"] = want[i].String()
 		}
@@ -202,7 +238,15 @@ func c01Programs(c *run.Ctx, idx uint64) {
 	if c.WantSample() && nontrivialProgram(ops) {
 		c.Sample(map[string]interface{}{"highres": hires, "program": rec.Strings(clip(ops, 40)), "calls": len(ops)})
 	}
-	c01Forward(c, ops, hires, "programs")
+	var toggles map[int]bool
+	if r.Chance(1, 3) && len(ops) > 2 {
+		// the public flag changes between paths and also in the middle of a path
+		toggles = map[int]bool{}
+		for n := r.Range(1, 6); n > 0; n-- {
+			toggles[r.Intn(len(ops))] = r.Bool()
+		}
+	}
+	c01ForwardToggling(c, ops, hires, toggles, "programs")
 }
 
 type c01BCase struct {
